@@ -3,11 +3,13 @@ package main
 
 import (
 	"context"
+	"errors"
 	"fmt"
 	"runtime"
 	"sort"
 	"strings"
 	"sync"
+	"sync/atomic"
 	"time"
 
 	"github.com/go-logr/logr"
@@ -1049,11 +1051,21 @@ func runInterrupted(k *vf.Case) {
 	ctr, _ := m.Int64Counter("c")
 	hist, _ := m.Float64Histogram("h")
 	m.Int64ObservableGauge("g", metric.WithInt64Callback(func(_ context.Context, o metric.Int64Observer) error { o.Observe(1); return nil }))
+	// a callback that reports an error on demand (the context stays alive): such a cycle is a complete cycle, what
+	// it returns next to the error counts
+	var failNow atomic.Bool
+	m.Int64ObservableUpDownCounter("flaky", metric.WithInt64Callback(func(_ context.Context, o metric.Int64Observer) error {
+		if failNow.Load() {
+			return errors.New("callback failed")
+		}
+		return nil
+	}))
 	dead, cancel := context.WithCancel(ctx)
 	cancel()
 	nSets := 1 + r.Intn(4)
 	running := map[string]float64{} // instrument|set|what -> running delta total
 	failed := 0
+	cbFailed := 0
 	for cyc := 0; cyc < 3+r.Intn(10); cyc++ {
 		for i := r.Intn(12); i > 0; i-- {
 			o := metric.WithAttributeSet(attribute.NewSet(attribute.Int("sid", r.Intn(nSets))))
@@ -1071,14 +1083,21 @@ func runInterrupted(k *vf.Case) {
 				return
 			}
 		}
-		if err := del.Collect(ctx, &rd); err != nil {
+		failNow.Store(r.Chance(1, 3))
+		if err := del.Collect(ctx, &rd); err != nil && !failNow.Load() {
 			k.Violate("collect-error", "interrupted delta", err.Error(), nil)
 			return
+		} else if err != nil {
+			cbFailed++
 		}
-		if err := cum.Collect(ctx, &rc); err != nil {
+		failNow.Store(r.Chance(1, 3))
+		if err := cum.Collect(ctx, &rc); err != nil && !failNow.Load() {
 			k.Violate("collect-error", "interrupted cumulative", err.Error(), nil)
 			return
+		} else if err != nil {
+			cbFailed++
 		}
+		failNow.Store(false)
 		latest := map[string]float64{}
 		walk := func(rm *metricdata.ResourceMetrics, into map[string]float64, add bool) {
 			for _, sm := range rm.ScopeMetrics {
@@ -1109,7 +1128,7 @@ func runInterrupted(k *vf.Case) {
 		walk(&rc, latest, false)
 		for key, want := range latest {
 			if running[key] != want {
-				k.Violate("cumulative-vs-delta-total", "after a collection attempt on a done context", fmt.Sprintf("cycle %d, %d failed attempts so far: %s cumulative %v, running delta total %v", cyc, failed, key, want, running[key]), nil)
+				k.Violate("cumulative-vs-delta-total", "after failed collection attempts (done context or failing callback)", fmt.Sprintf("cycle %d, %d failed attempts so far: %s cumulative %v, running delta total %v", cyc, failed, key, want, running[key]), nil)
 				return
 			}
 		}
@@ -1117,6 +1136,7 @@ func runInterrupted(k *vf.Case) {
 	if failed > 0 {
 		k.C.Count("interrupted_histories_with_failed_attempts", 1)
 	}
+	k.C.Count("interrupted_cycles_with_failing_callback", int64(cbFailed))
 	k.C.Count("interrupted_histories", 1)
 	k.C.Sig(fmt.Sprintf("interrupted|%d|%d", nSets, min(failed, 3)))
 	mp.Shutdown(ctx)
